@@ -104,7 +104,7 @@ def run(args):
             first_loop = next((i for i, s in enumerate(stmts) if any(True for _ in loops_of(s))), len(stmts))
             single = False
             for s in stmts[(idx or 0) + 1:first_loop]:
-                if s.get("k") == "IfStmt" and "size" in sexp(s.get("cond")) and "1" in sexp(s.get("cond")):
+                if s.get("k") == "IfStmt" and "size" in sexp(s.get("cond")) and refs(s.get("cond"), pts):
                     t = sexp(s.get("then"))
                     if "(return" in t and "begin" in t:
                         single = True
